@@ -589,6 +589,23 @@ def InView.hashed (v : InView) : List Bytes :=
 /-- the byte strings hashed for one output -/
 def OutView.hashed (v : OutView) : List Bytes := [v.scriptPubkey, v.rangeproof, v.surjectionProof]
 
+/-- the digests of the transaction as a function of the view (transaction id left empty) -/
+def EnvView.tx (v : EnvView) : TxDigests :=
+  txDigestsOf (v.ins.map InView.pieces) (v.outs.map OutView.pieces) v.version v.lockTime []
+
+def EnvView.tap (v : EnvView) : TapDigests :=
+  tapDigestsOf v.leafVersion v.scriptCmr.bytes (v.merkleBranch.map (·.bytes)) v.internalKey.bytes
+
+def EnvView.sigAll (v : EnvView) : Bytes :=
+  Sha256.hash (sigAllPre v.genesisHash.bytes v.tx.txHash v.tap.tapEnvHash v.ix)
+
+/-- every digest jet (but `transaction_id`) as a function of the view -/
+def viewD (q : DQuery) (v : EnvView) : Option (List Bool) :=
+  match q with
+  | .nullary g => some (bytesBits (d0Bytes g v.tx v.tap v.sigAll))
+  | .input g i => some (optBits ((v.ins[i.toNat]?).map fun x => inDW g x.pieces))
+  | .outputHash i => some (optBits ((v.outs[i.toNat]?).map fun o => hashBits o.pieces.outputHashPre))
+
 /-- the pre-images of the combining digests of `txDigestsOf` -/
 def inputsHashPreOf (ins : List InPieces) : Bytes :=
   let d := txDigestsOf ins [] 0 0 []
